@@ -1833,6 +1833,8 @@ impl Check for C08 {
                 crate::p_e3::gen_cli_race(rng)
             } else if mapped {
                 crate::p_e3::gen_cli_mapped(rng)
+            } else if idx % 20 == 4 {
+                crate::p_e3::gen_cli_grouped(rng)
             } else {
                 crate::p_e3::gen_cli(rng)
             };
@@ -1889,6 +1891,8 @@ impl Check for C08 {
             "probe:quit-with-pending-async-control",
             "probe:quit-with-deleted-job",
             "probe:grouped-command-with-grandchildren",
+            "probe:cli-grouped-command-with-grandchildren",
+            "probe:cli-ungrouped-command-with-grandchildren",
             "probe:cli-quit",
             "probe:cli-quit-with-running-command",
             "probe:cli-quit-during-graceful-restart",
